@@ -70,6 +70,18 @@ Definition hl_pot (g : grammar) (nl : list N) (rho : N -> nat) (Rk : nat) : Prop
      rho b + (if is_nil al then 0 else 1) <= rho (lhs g p)) /\
   (forall r, (r < nrules g)%N -> rho r < Rk).
 
+(* the same, required only of the productions of rules satisfying P *)
+Definition hl_pot_on (P : N -> Prop) (g : grammar) (nl : list N) (rho : N -> nat) (Rk : nat) : Prop :=
+  (forall p al b be, is_prod g p -> P (lhs g p) -> rhs g p = al ++ R b :: be ->
+     nullable_seq nl al = true ->
+     rho b + (if is_nil al then 0 else 1) <= rho (lhs g p)) /\
+  (forall r, (r < nrules g)%N -> rho r < Rk).
+
+Lemma hl_pot_on_all g nl rho Rk : hl_pot g nl rho Rk -> hl_pot_on (fun _ => True) g nl rho Rk.
+Proof.
+  intros [H1 H2]. split; [|exact H2]. intros p al b be Hp _. apply H1. exact Hp.
+Qed.
+
 Lemma acyclic_b_cert g : acyclic_b g = true ->
   exists nl rk, nullable_closed g nl = true /\ unit_rank g nl rk (N.to_nat (nrules g)).
 Proof.
